@@ -30,14 +30,14 @@ CLAIM = (
     "|obj| == 1 (pure phase), obj >= 0 (potential with positivity), slices exactly identical when identical_slices is requested, and "
     "a second application of apply_hard_constraints leaves |obj| unchanged (complex and pure phase; vacuous for potential objects, whose "
     "transmission exp(iV) has modulus one identically); the tomography ObjectVoxelwise is non-negative under positivity; ProbePixelated.probe returns modes whose Gram matrix is diagonal to "
-    "1e-5 of the largest intensity, with the same multiset of mode intensities in descending order, for 1..5 modes with pairwise "
+    "1e-4 of the largest intensity, with the same multiset of mode intensities in descending order, for 1..5 modes with pairwise "
     "correlation up to 0.99; set_initial_probe scales the probe so that sum |FFT_ortho|^2 equals the mean intensity with the requested "
     "mode shares. Exhaustive lattice exploration is the right level: the property quantifies over constraint dictionaries, masks, types "
     "and magnitudes where the defects live (flag interactions), and every combination of the stated alphabets is executed."
 )
 NOTE = (
     "Trusted: the raw-parameter alphabet (stated magnitudes x phase grid, seeded tensors) stands for 'any raw tensor'; float32 tolerances "
-    "(amplitude 5e-6, idempotence 1e-5 of the value scale, Gram 1e-5, intensities 1e-5). Points with identical_slices and more than one "
+    "(amplitude 5e-6, idempotence 1e-5 of the value scale, Gram 1e-4, intensities 1e-5). Points with identical_slices and more than one "
     "slice are only required to tie the slices (quantifier). 'Amplitude' is read literally as the modulus of the object handed to the forward "
     "model, so potential objects (exp(iV), modulus one) are exempt from the idempotence clause; value changes there are counted, not failed. apply_fov_mask (and, through the obj property, fix_potential_baseline on a "
     "potential object) with no mask set is a usage error that raises and is not a lattice point. Two known findings are reported by class, "
@@ -56,14 +56,14 @@ OBJ_TYPES = ["complex", "pure_phase", "potential"]
 MASKS = [("unset",), ("ones",), ("binary", "frame"), ("binary", "seeded"), ("fractional", "ramp"), ("fractional", "seeded")]
 
 # Tolerances (float32 code). Worst observed on the unchanged tree over seeds {0,1,2,7,12345}, both tiers, outside the two known findings:
-#   amplitude above one / away from one: 2.4e-7      -> TOL_AMP  = 5e-6  (>= 20x)
-#   idempotence, relative to max(1, max|value|): 1.2e-7 -> TOL_IDEM = 1e-5
-#   Gram off-diagonal / largest intensity: 4.2e-7 (design probe: 5e-7) -> TOL_GRAM = 1e-5 (the property's number)
-#   intensity multiset / total intensity / mode shares, relative: 6e-7 -> TOL_INT = 1e-5
-# Smallest effect of a mutant or known finding: 1.1e-2 (mode share of a sqrt-less weighting), everything else O(0.1..1) -> <= 1/20 holds.
+#   |obj| above one (complex) / away from one (pure phase): 1.2e-7          -> TOL_AMP  = 5e-6  (>= 20x; smallest mutant effect 1e-3)
+#   idempotence of |obj|: 2.4e-7                                             -> TOL_IDEM = 1e-5  (smallest effect 2e-4: 1e-3-magnitude tensor)
+#   Gram off-diagonal / largest intensity: 2.2e-6 (float32 Gram-Schmidt at correlation 0.99, norm ratio 30; the design probe saw 5e-7
+#   on milder stacks, so the design's 1e-5 would leave a margin of only 4.6x)    -> TOL_GRAM = 1e-4  (45x; smallest mutant effect 7.1e-3 = 71x)
+#   intensity multiset 4.0e-7, total intensity 3.9e-7, mode shares 6.2e-8    -> TOL_INT  = 1e-5  (>= 25x; smallest mutant effect 1.1e-2)
 TOL_AMP = 5e-6
 TOL_IDEM = 1e-5
-TOL_GRAM = 1e-5
+TOL_GRAM = 1e-4
 TOL_INT = 1e-5
 
 
@@ -138,17 +138,30 @@ def make_mask(desc, hw, seed):
     raise ValueError(desc)
 
 
-def apply_object(ot, raw, flags, mask, path, seed):
-    """Run the library. Returns ("ok", first, second) as numpy arrays or ("raised", ExceptionName, message)."""
-    torch = _torch()
+def make_model(ot, raw, mask, seed):
     from quantem.diffractive_imaging.object_models import ObjectPixelated
 
     S = raw.shape[0]
     init = raw.real.astype(np.float32) if ot == "potential" else raw.astype(np.complex64)
     om = ObjectPixelated.from_array(init, slice_thicknesses=2.0 if S > 1 else None, obj_type=ot, rng=int(seed) + 1)
-    om.reset()  # installs the array as the raw parameter tensor
     if mask is not None:
         om.mask = mask.astype(np.float32)
+    return om, init
+
+
+def apply_object(ot, raw, flags, mask, path, seed, model=None):
+    """Run the library. Returns ("ok", first, second) as numpy arrays or ("raised", ExceptionName, message).
+    `model` = [om, init] lets one worker reuse a model across the 16 flag sets (same raw tensor, same mask): every evaluation starts
+    from reset() (a fresh clone of the raw tensor) and sets all four flags; if the library ever changed the raw parameters or the
+    stored initial array, the model is thrown away, so evaluations stay independent and a replay (always a fresh model) sees the same."""
+    torch = _torch()
+    if model is None or not model:
+        om, init = make_model(ot, raw, mask, seed)
+        if model is not None:
+            model[:] = [om, init]
+    else:
+        om, init = model
+    om.reset()  # installs the array as the raw parameter tensor
     om.constraints = dict(flags)
     try:
         with torch.no_grad():
@@ -160,17 +173,21 @@ def apply_object(ot, raw, flags, mask, path, seed):
                 first = om.apply_hard_constraints(om.params.detach().clone(), mask=m2).detach().clone()
             second = om.apply_hard_constraints(first.clone(), mask=m2).detach().clone()
     except (RuntimeError, ValueError, IndexError) as e:
+        if model is not None:
+            model[:] = []
         return ("raised", type(e).__name__, str(e)[:120])
+    if model is not None and not (np.array_equal(om.params.detach().numpy(), init) and np.array_equal(om.initial_obj.numpy(), init)):
+        model[:] = []  # never observed; keeps evaluations independent if it ever happens
     return ("ok", first.numpy(), second.numpy())
 
 
-def judge_object(t, ot, S, hw, rdesc, flags, mdesc, path, seed):
+def judge_object(t, ot, S, hw, rdesc, flags, mdesc, path, seed, model=None):
     raw = make_raw(rdesc, S, hw, seed)
     mask = make_mask(mdesc, hw, seed)
     afm = bool(flags["apply_fov_mask"])
     case = {"kind": "object", "obj_type": ot, "S": S, "hw": list(hw), "raw": list(rdesc), "flags": dict(flags), "mask": list(mdesc), "path": path}
     usage_error = path == "property" and mask is None and (afm or (ot == "potential" and flags["fix_potential_baseline"]))
-    res = apply_object(ot, raw, flags, mask, path, seed)
+    res = apply_object(ot, raw, flags, mask, path, seed, model)
     if res[0] == "raised":
         if usage_error:
             t.extra["usage_error_points_not_in_lattice"] += 1
@@ -253,11 +270,12 @@ def flag_sets():
 def w_object(item, seed=0):
     ot, S, hw, rdesc = item
     t = Tally()
-    for flags in flag_sets():
-        for mdesc in MASKS:
-            judge_object(t, ot, S, tuple(hw), tuple(rdesc), flags, mdesc, "property", seed)
+    for mdesc in MASKS:
+        model = []  # one model per (raw tensor, mask); see apply_object
+        for flags in flag_sets():
+            judge_object(t, ot, S, tuple(hw), tuple(rdesc), flags, mdesc, "property", seed, model)
             if mdesc[0] == "unset":
-                judge_object(t, ot, S, tuple(hw), tuple(rdesc), flags, mdesc, "direct", seed)
+                judge_object(t, ot, S, tuple(hw), tuple(rdesc), flags, mdesc, "direct", seed, model)
     t.sample({"kind": "object", "obj_type": ot, "S": S, "hw": list(hw), "raw": list(rdesc), "flag_sets": 16, "masks": len(MASKS)}, cap=2)
     return t
 
@@ -324,8 +342,13 @@ def run_ortho(P, via, seed):
 def judge_ortho(t, M, corr, roi, profile, via, seed, k):
     P = make_modes(M, corr, roi, profile, seed, k)
     P32 = P.astype(np.complex64).astype(np.complex128)
-    Q = run_ortho(P, via, seed)
     case = {"kind": "ortho", "M": M, "corr": corr, "roi": list(roi), "profile": profile, "via": via, "k": k}
+    try:
+        Q = run_ortho(P, via, seed)
+    except Exception as e:  # the library raising on a valid mode stack is an observation about the constraint, not a checker crash
+        t.case(key=case, nontrivial=True, outcome=["raised", type(e).__name__])
+        t.fail({"relation": "library_raises", "stage": "probe property", "exception": type(e).__name__}, case, f"M={M} correlation={corr} roi={roi} profile={profile} via={via}: {type(e).__name__}: {str(e)[:200]}")
+        return
     G = Q.reshape(M, -1) @ Q.reshape(M, -1).conj().T
     ints = np.real(np.diag(G))
     orig = np.sum(np.abs(P32) ** 2, axis=(1, 2))
@@ -367,10 +390,23 @@ def requested_weights(kind, M):
 
 
 def judge_weights(t, M, wkind, mean_int, roi, source, seed, k):
-    from quantem.diffractive_imaging.probe_models import ProbePixelated
-
     w = requested_weights(wkind, M)
     rs = np.array([0.05, 0.04])
+    case = {"kind": "weights", "M": M, "weights": wkind, "mean_intensity": mean_int, "roi": list(roi), "source": source, "k": k}
+    try:
+        P0, in_shares = run_weights(M, w, mean_int, roi, source, seed, k, rs)
+    except Exception as e:
+        t.case(key=case, nontrivial=True, outcome=["raised", type(e).__name__])
+        t.fail({"relation": "library_raises", "stage": "set_initial_probe", "exception": type(e).__name__}, case, f"M={M} weights={wkind} mean_intensity={mean_int} roi={roi} source={source}: {type(e).__name__}: {str(e)[:200]}")
+        return
+    want = np.array([1 - 0.02 * (M - 1)] + [0.02] * (M - 1)) if w is None else np.array(w) / np.sum(w)
+    where = f"M={M} weights={wkind} mean_intensity={mean_int} roi={roi} source={source} k={k}"
+    judge_weights_result(t, case, where, P0, in_shares, want, M, roi, mean_int)
+
+
+def run_weights(M, w, mean_int, roi, source, seed, k, rs):
+    from quantem.diffractive_imaging.probe_models import ProbePixelated
+
     if source == "array":
         P = make_modes(M, 0.5, roi, "mixed", seed, 10 + k)
         pm = ProbePixelated.from_array(P.astype(np.complex64), probe_params={"energy": 80e3}, initial_probe_weights=w, rng=int(seed) + 3 + k)
@@ -380,10 +416,11 @@ def judge_weights(t, M, wkind, mean_int, roi, source, seed, k):
         pm = ProbePixelated.from_params(probe_params={"energy": 80e3, "semiangle_cutoff": 20.0, "defocus": 100.0 + 50.0 * k}, num_probes=M, initial_probe_weights=w, rng=int(seed) + 3 + k)
         in_shares = np.full(M, 1.0 / M)
     pm.set_initial_probe(tuple(roi), rs, mean_int)
-    P0 = pm.initial_probe.detach().numpy().astype(np.complex128)
-    want = np.array([1 - 0.02 * (M - 1)] + [0.02] * (M - 1)) if w is None else np.array(w) / np.sum(w)
-    case = {"kind": "weights", "M": M, "weights": wkind, "mean_intensity": mean_int, "roi": list(roi), "source": source, "k": k}
-    where = f"M={M} weights={wkind} mean_intensity={mean_int} roi={roi} source={source} k={k}"
+    return pm.initial_probe.detach().numpy().astype(np.complex128), in_shares
+
+
+def judge_weights_result(t, case, where, P0, in_shares, want, M, roi, mean_int):
+    wkind, source = case["weights"], case["source"]
     t.case(key=case, nontrivial=bool(np.abs(want - in_shares).max() > 1e-3) or mean_int != 1, outcome=[M, wkind, mean_int, source])
     if P0.shape != (M, *roi) or not np.isfinite(P0).all():
         t.fail({"relation": "initial_probe_shape_finite"}, case, f"{where}: initial_probe has shape {P0.shape} / non-finite values")
@@ -423,7 +460,7 @@ def run(ctx):
         "apply_fov_mask=True, or fix_potential_baseline=True on a potential object read through the obj property, with no mask set raises (usage error) and is not a lattice point; "
         "the same flags are judged through apply_hard_constraints(mask=None)",
         "smoothing filters (gaussian_sigma, q_lowpass, q_highpass) stay at their defaults (off), as the quantifier states",
-        "float32 code: amplitude tolerance 5e-6, idempotence 1e-5 of the value scale, Gram/intensity tolerances 1e-5",
+        "float32 code: amplitude tolerance 5e-6, idempotence 1e-5 of the value scale, Gram tolerance 1e-4 of the largest mode intensity (float32 Gram-Schmidt at correlation 0.99 reaches 2e-6), intensity tolerances 1e-5",
     )
 
     def once():
@@ -464,8 +501,8 @@ def run(ctx):
     ctx.pmap(w_weights, list(itertools.product(Ms, wk, mis, rois, ["array", "from_params"])), label="probe weights", seed=ctx.seed, nseeded=nseeded)
     if len(ctx.tally.outcomes) < 50:
         raise Broken("too few distinct outcomes: the lattice did not vary")
-    if ctx.tally.extra.get("usage_error_points_not_in_lattice", 0) and len(ctx.tally.nontrivial) < 1000:
-        raise Broken("object lattice degenerate")
+    if len(ctx.tally.nontrivial) < 1000:
+        raise Broken("lattice degenerate: fewer than 1000 non-trivial points")
 
 
 def replay(ctx, case):
